@@ -133,7 +133,7 @@ func c04Oracle(info *runInfo, res *verifsim.Result) {
 		}
 	}
 
-	advG := map[int]bool{}  // goroutines that touch a socket
+	advG := map[int]bool{} // goroutines that touch a socket
 	listenG := map[int]bool{}
 	for i := range info.ev {
 		e := &info.ev[i]
